@@ -3,8 +3,8 @@
   `msum t w = Σ_{(k ↦ b) ∈ t} w b`, defined as a sum over `List.range`-like
   recursion up to a bound above every key, so that `insert` / `erase` change
   exactly one summand.  Used for
-    * `hcount handles k` : number of live handles on node `k`,
-    * `indeg tbl k`      : number of stored edges into node `k`.
+    * `hcount handles k` : number of live handles on node `k`
+  (the in-degree `indeg` of a node is defined the same way in DDProofs.RefCount).
 -/
 import DD.Auto
 import Std.Data.TreeMap.Lemmas
@@ -184,10 +184,6 @@ end msum
 /-- number of live handles that point to node `k` -/
 def hcount (h : TreeMap Nat Int) (k : Nat) : Nat := msum h (fun u => if u.natAbs = k then 1 else 0)
 
-/-- number of stored edges into node `k` -/
-def indeg (t : Tbl) (k : Nat) : Nat :=
-  msum t.succ (fun n => (if n.lo.natAbs = k then 1 else 0) + (if n.hi.natAbs = k then 1 else 0))
-
 theorem hcount_insert (h : TreeMap Nat Int) (j : Nat) (u : Int) (k : Nat) (hj : h.contains j = false) :
     hcount (h.insert j u) k = hcount h k + (if u.natAbs = k then 1 else 0) :=
   msum_insert_new h _ j u hj
@@ -205,18 +201,5 @@ theorem hcount_pos_of_handle (h : TreeMap Nat Int) (j : Nat) (u : Int) (hj : h[j
   have := hcount_erase h j u u.natAbs hj
   simp at this
   omega
-
-theorem indeg_pos (t : Tbl) (k : Nat) (h : 0 < indeg t k) :
-    ∃ (i : Nat) (n : Nd), t.succ[i]? = some n ∧ (n.lo.natAbs = k ∨ n.hi.natAbs = k) := by
-  obtain ⟨i, n, hn, hw⟩ := msum_pos _ _ h
-  refine ⟨i, n, hn, ?_⟩
-  by_cases h1 : n.lo.natAbs = k
-  · exact Or.inl h1
-  · by_cases h2 : n.hi.natAbs = k
-    · exact Or.inr h2
-    · simp [h1, h2] at hw
-
-theorem indeg_of_isEmpty (t : Tbl) (k : Nat) (h : t.succ.isEmpty = true) : indeg t k = 0 :=
-  msum_of_isEmpty _ _ h
 
 end DD
